@@ -131,6 +131,9 @@ type CrashScenario struct {
 	Ops       []HistOp `json:"ops"`
 	NPrior    int      `json:"nprior"`
 	Label     string   `json:"label"`
+	// After: operations a fresh process performs on the store that survived the kill (a manual update of the interrupted
+	// run, a new run): the store must go on recording, and the queries are asked a second time
+	After []HistOp `json:"after"`
 }
 
 // CrashSweep kills the crash part of the scenario at every relevant system call (and at torn prefixes of
@@ -146,6 +149,9 @@ func CrashSweep(self string, sc CrashScenario, base string, every int, emit func
 			reqs = append(reqs, o.R)
 		}
 	}
+	afterFile := filepath.Join(base, fmt.Sprintf("after%d.json", sc.Scen))
+	defer os.Remove(afterFile)
+	reqs2 := append([]string{}, reqs...)
 	prep := func(tag string) (string, string, error) {
 		dir := filepath.Join(base, fmt.Sprintf("crash%d-%s", sc.Scen, tag), "data")
 		os.RemoveAll(filepath.Dir(dir))
@@ -217,6 +223,26 @@ func CrashSweep(self string, sc CrashScenario, base string, every int, emit func
 			os.RemoveAll(filepath.Dir(dir))
 			return fmt.Errorf("query process failed: %v %s", qerr, string(out))
 		}
+		var ans2 Ev = Ev{}
+		after := sc.After
+		if after == nil {
+			after = []HistOp{}
+		}
+		if len(after) > 0 {
+			ab, _ := json.Marshal(CrashScenario{Scen: sc.Scen, Names: sc.Names, TodayOnly: sc.TodayOnly, Ops: after})
+			os.WriteFile(afterFile, ab, 0o644)
+			exec.Command(self, "histdrv", "-dir", dir, "-scen", afterFile).Run()
+			for _, o := range after {
+				if o.Op == "Open" {
+					reqs2 = appendNew(reqs2, o.R)
+				}
+			}
+			out2, qerr := exec.Command(self, "histq", "-dir", dir, "-names", sc.Names, "-today", fmt.Sprint(sc.TodayOnly), "-reqs", strings.Join(reqs2, ",")).Output()
+			if qerr != nil || json.Unmarshal(out2, &ans2) != nil {
+				os.RemoveAll(filepath.Dir(dir))
+				return fmt.Errorf("second query process failed: %v %s", qerr, string(out2))
+			}
+		}
 		files := []string{}
 		filepath.Walk(dir, func(pth string, info os.FileInfo, err error) error {
 			if err == nil && !info.IsDir() {
@@ -252,7 +278,7 @@ func CrashSweep(self string, sc CrashScenario, base string, every int, emit func
 		}
 		emit(Ev{"scen": sc.Scen, "label": sc.Label, "names": sc.Names, "todayOnly": sc.TodayOnly, "ops": sc.Ops, "nprior": sc.NPrior,
 			"nack": nack, "k": p.k, "ncalls": len(lst.Calls), "sys": sys, "path": path, "torn": p.tear, "killed": res.Killed,
-			"ans": ans, "files": files, "sec": HistSec, "latestError": latestErr, "recentDup": recentDup, "emptyFile": emptyFile})
+			"ans": ans, "after": after, "ans2": ans2, "files": files, "sec": HistSec, "latestError": latestErr, "recentDup": recentDup, "emptyFile": emptyFile})
 		os.RemoveAll(filepath.Dir(dir))
 	}
 	return nil
@@ -280,7 +306,7 @@ func bigText() string {
 }
 
 func SaveCrashSweep(self string, base string, emit func(Ev)) error {
-	texts := map[string]string{"A": apiTexts["A"], "B": apiTexts["B"], "big": bigText()}
+	texts := map[string]string{"A": apiTexts["A"], "B": apiTexts["B"], "C": apiTexts["C"], "big": bigText()}
 	id := func(b []byte, err error) string {
 		if err != nil {
 			return "absent"
@@ -353,10 +379,28 @@ func SaveCrashSweep(self string, base string, emit func(Ev)) error {
 			if killAt > 0 {
 				sys = lst.Calls[killAt-1].Name + " " + filepath.Base(lst.Calls[killAt-1].Path)
 			}
+			// the definition is saved again by another process (DagStore.tla NextSave): a third, shorter text
+			next := "C"
+			if tc[1] == "B" {
+				next = "A" // shorter than what the killed save was writing
+			}
+			exec.Command(self, "savedrv", "-dags", dir, "-name", "x", "-text", next).Run()
+			b2, rerr2 := os.ReadFile(filepath.Join(dir, "x.yaml"))
+			ob2, _ := os.ReadFile(filepath.Join(dir, "other.yaml"))
 			emit(Ev{"kind": "savecrash", "old": tc[0], "new": tc[1], "k": p.k, "ncalls": len(lst.Calls), "sys": sys, "torn": p.tear,
-				"killed": res.Killed, "content": id(b, rerr), "otherChanged": string(ob) != texts["A"], "dir": names})
+				"killed": res.Killed, "content": id(b, rerr), "otherChanged": string(ob) != texts["A"] || string(ob2) != texts["A"], "dir": names,
+				"next": next, "contentAfterNext": id(b2, rerr2)})
 			os.RemoveAll(filepath.Dir(dir))
 		}
 	}
 	return nil
+}
+
+func appendNew(l []string, x string) []string {
+	for _, y := range l {
+		if y == x {
+			return l
+		}
+	}
+	return append(l, x)
 }
